@@ -95,6 +95,15 @@ def rng(x, lo, hi):
     return all_of(lo <= x, x <= hi)
 
 
+def concretize(x):
+    """Realise a symbolic value (forks once per feasible value): use before C-level boundaries (pydantic-core)."""
+    if not _SYMBOLIC_MODE:
+        return x
+    from crosshair.core import realize
+
+    return realize(x)
+
+
 def pick(seq, idx):
     """Symbolic choice of an element of a concrete sequence (forks on idx)."""
     n = len(seq)
